@@ -139,8 +139,13 @@ def _fit_once(a, prefit=False):
         # what a fresh object gives with random_state=s
         vals = sorted(set(labels.values()))
         other = {k: vals[(vals.index(v) + 1) % len(vals)] for k, v in labels.items()}
-        gnn.fit(adjacency, features, other, n_epochs=max(2, a['n_epochs'] // 2), validation=a.get('validation', 0),
-                random_state=a['random_state'] + 17)
+        try:
+            gnn.fit(adjacency, features, other, n_epochs=max(2, a['n_epochs'] // 2), validation=a.get('validation', 0),
+                    random_state=a['random_state'] + 17)
+        except Exception as e:  # noqa
+            # the EARLIER fit (other labels, other seed) is not the subject: e.g. its random validation split may hold no
+            # labelled node on a 4-node graph, which the library reports by raising; no history, nothing to compare
+            return {'skipped': 'earlier fit raised %s' % type(e).__name__}
         gnn.fit(adjacency, features, labels, n_epochs=a['n_epochs'], validation=a.get('validation', 0),
                 random_state=a['random_state'], reinit=True)
     else:
